@@ -3,19 +3,33 @@ import vlib
 
 def classify(line):
     tags = line.get("tags", [])
-    if "kind:staged" in tags and "has:absent-policy" in tags:
+    kind = [t for t in tags if t.startswith("kind:")]
+    kind = kind[0][5:] if kind else ""
+    if kind in ("staged", "ep-staged") and "has:absent-policy" in tags:
         return "staged-policy-in-tier-stops-rendering"
-    if "kind:rule-services-plus" in tags or ("kind:rule-unsupported" in tags and "unsupported:services-plus" in tags):
+    if kind == "rule-services-plus" or (kind == "rule-unsupported" and "unsupported:services-plus" in tags):
         return "services-rule-ignores-other-criteria"
+    if kind == "ep-lastpass":
+        return "pass-leaves-last-list-becomes-block"
+    if kind.startswith("ep") and "tree:combine-ports-unfixed" in tags and "has:pass-ports-meet-ports" in tags:
+        return "flatten-combine-ports-empty-or-panic"
     return None
 
 
 CFG = dict(
-    imports=["From Verif.Common Require Import Packet PolicyRef.", "From Verif.C30 Require Import Model Spec."],
-    checker="check_any",
-    n=dict(quick=180, thorough=12000),
+    imports=["From Verif.Common Require Import Packet PolicyRef.", "From Verif.C30 Require Import Model Spec EndModel EndSpec."],
+    checker="check_all",
+    n=dict(quick=200, thorough=12000),
     shard=28,
-    rule="real policysets.PolicySets with a fake HNS API and a fake IP-set cache. kind:tier = 1-4 policies/profiles "
+    rule="ENDPOINT LEVEL (kind:ep*): the real endpointManager (verif shim: newEndpointManager with a fake HNS endpoint list, "
+         "OnUpdate(WorkloadEndpointUpdate), CompleteDeferredWork, applied rules read from activeWlACLPolicies) behind the real "
+         "policyManager and PolicySets: 0-3 tiers (tier-a, tier-b, default; default action Deny/Pass; 1-2 policies each listed for "
+         "ingress and/or egress, Pass rules frequent in non-last tiers), 0-2 profiles, host addresses; both directions compared "
+         "with the model (flattenTiers, combineRules, rewritePriorities, host and node rules; panics are an observable) and "
+         "evaluated against PolicyRef.endpoint_verdict; ep-lastpass = Pass in the default tier / in a profile, ep-staged = staged "
+         "policies in tiers, ep-ports = Pass rules with ports in front of rules with ports; kind:rewrite-priorities = "
+         "rewritePriorities alone with small limits (grouped branch). The driver probes combinePorts to tell the model which "
+         "variant the tree has.  TIER LEVEL: real policysets.PolicySets with a fake HNS API and a fake IP-set cache. kind:tier = 1-4 policies/profiles "
          "(0-4 supported rules per direction: allow/deny/pass/log, protocol by name or number, 0-2 CIDRs per side "
          "(some with host bits, bare IPs, IPv6), port lists, at most one IP-set id per side, egress services rules) added with "
          "AddOrReplacePolicySet in shuffled order (some replaced), then GetPolicySetRules(ids, direction, endOfTierDrop); "
@@ -31,6 +45,7 @@ CFG = dict(
              "reference policy semantics coq/theories/Common/PolicyRef.v",
              "HNS ACL evaluation as stated in C30/Spec.v (hmatch / winners): per direction, lowest priority number among matching "
              "rules wins, empty address/port field = any, protocol 256 = any, inbound local = destination",
+             "endpoint level: Switch and Host rules are two layers that must both allow (EndSpec.ep_gives)",
              "Go driver harness/C30 (overlay build, tag verif) incl. its parsing of the ACL address/port strings"],
     assumptions=["IPv4 connections only (the Windows dataplane renders ipVersion 4)",
                  "domain guard Spec.in_domain: supported criteria only, at most one IP-set id per side (getIPSetAddresses unions "
@@ -38,6 +53,11 @@ CFG = dict(
                  "criterion and are egress rules, every policy of the tier is known to the policy manager (no staged policy in the tier), profile rules do not "
                  "use Pass across profiles (one GetPolicySetRules call is compared with PolicyRef.tier_verdict), < 64000 HNS rules per tier "
                  "(uint16 priorities)",
+                 "endpoint level (EndSpec.ep_domain): additionally no Pass rule in profiles, and when the default tier has policies "
+                 "for the direction the last tier with policies has no Pass rule and does not default to Pass (a Pass leaving the "
+                 "last rule list becomes Block: known finding); connections from the node's own addresses are excluded (node->endpoint "
+                 "allow rule); combinePorts as repaired by fixes/C30-combine-ports-empty-and-last-port.patch (the unrepaired variant is "
+                 "modelled too and refuted); lists_wf (CIDR lengths <= 32 in the per-tier lists) is a checked hypothesis",
                  "no static rules file", "IP-set members are IPv4 CIDRs/addresses; ip,port members are <ip>,<proto>:<port>"],
 )
 
@@ -52,7 +72,9 @@ MANIFEST = dict(
          "set in the stated domain, all IP-set contents and every IPv4 connection, evaluating the generated HNS ACL rules by "
          "priority gives the verdict of the reference policy semantics (incl. chunking cross products, CIDR/IP-set "
          "intersection, the services short-circuit, pass / end-of-tier), rules sharing a priority share an action and the "
-         "verdict is invariant under reordering; plus a correspondence run of the model and of the spec oracle against the "
+         "verdict is invariant under reordering; at endpoint level the final flattened list (flattenTiers, combineRules, "
+         "rewritePriorities, host rules) evaluated by priority gives PolicyRef.endpoint_verdict for both directions "
+         "(c30_endpoint_same_verdict_partial); plus a correspondence run of the model and of the spec oracle against the "
          "real Go code on generated policies, tier layouts, IP sets and connections.",
     note="Trusted: Coq kernel; hand-written model tied to the code only by the correspondence run; stated HNS evaluation "
          "semantics; PolicyRef reference semantics; Go driver.",
